@@ -31,6 +31,16 @@ def v2_packet(device_id, ts, frame):
     return head + enc + md5(head + enc + SIGN_KEY)
 
 
+def v2_decodes_to(data, frame):
+    """frame is what an accepted V2 packet `data` carries: marker, length within the data, keyed MD5 over everything before
+    it matches, frame = PKCS#7-unpadded AES-128-ECB plaintext (the C02/C03 statements as a relation)"""
+    total = int.from_bytes(data[4:6], "little")
+    plain = aes_ecb_dec(md5(SIGN_KEY), data[:total][40:-16])
+    return (len(data) >= 6 and data[:2] == b"\x5a\x5a" and total <= len(data)
+            and md5(data[:total][:-16] + SIGN_KEY) == data[:total][-16:]
+            and frame == plain[:len(frame)] and 1 <= len(plain) - len(frame) <= 16 and plain[-1] == len(plain) - len(frame))
+
+
 def v2_len(frame_len):
     return 56 + 16 * (frame_len // 16 + 1)
 
@@ -205,7 +215,7 @@ NO_LEAK = {"no_consumer_left_behind": "pending_getters(self._queue) == 0"}
 contract(V3 + ".read",
          params={"self": "obj:" + V3, "timeout": "int[0,60]"},
          rtype="bytes", cancellation=True,
-         modifies=["self._queue"],
+         modifies=["self._queue"], emits={"pkt_in": "result"},
          raises={LAN + "ProtocolError": {"post": NO_LEAK}, "builtins.TimeoutError": {"when": "timeout != 0", "post": NO_LEAK},
                  "asyncio.QueueEmpty": {"when": "timeout == 0", "post": NO_LEAK}, "asyncio.CancelledError": {"when": "timeout != 0"}},
          ensures=NO_LEAK,
@@ -215,7 +225,7 @@ contract(V3 + ".read",
 contract(LAN + "_LanProtocol.read",
          params={"self": "obj:" + LAN + "_LanProtocol", "timeout": "int[0,60]"},
          rtype="bytes", cancellation=True,
-         modifies=["self._queue"],
+         modifies=["self._queue"], emits={"pkt_in": "result"},
          raises={"builtins.TimeoutError": {"when": "timeout != 0", "post": NO_LEAK}, "asyncio.QueueEmpty": {"when": "timeout == 0", "post": NO_LEAK},
                  "asyncio.CancelledError": {"when": "timeout != 0"}},
          ensures=NO_LEAK)
@@ -323,9 +333,13 @@ contract(LANC + "._read",
          bind_kwargs=["timeout"], defaults={"timeout": "2"},
          requires=["self._protocol is not None", "lan_inv(self)"],
          rtype="bytes",
-         modifies=["self._protocol._queue"],
+         modifies=["self._protocol._queue"], emits={"frame_in": "result"},
          raises={LAN + "ProtocolError": {}, "builtins.TimeoutError": {"when": "timeout != 0"},
-                 "asyncio.QueueEmpty": {"when": "timeout == 0"}, "asyncio.CancelledError": {"when": "timeout != 0"}})
+                 "asyncio.QueueEmpty": {"when": "timeout == 0"}, "asyncio.CancelledError": {"when": "timeout != 0"}},
+         ensures={"one_packet_is_taken": "len(events('pkt_in')) == 1",
+                  "frame_is_the_verified_decoding_of_that_packet": "v2_decodes_to(events('pkt_in')[0], result)"},
+         notes="C03/C01: what LAN hands up is the decoding of exactly the packet the protocol layer handed up, accepted only with a "
+               "matching signature (the relation is _Packet.decode's post-condition, not its body)")
 
 contract(LANC + "._read_available",
          params={"self": "obj:" + LANC},
@@ -333,8 +347,11 @@ contract(LANC + "._read_available",
          yields="bytes", emits={"io": "'drain'"},
          modifies=["self._protocol._queue"],
          raises={LAN + "ProtocolError": {}},
-         loops={"0": {"match": "True", "modifies": ["self._protocol._queue"]}},
-         notes="async generator: yields decoded frames until the queue is empty; only QueueEmpty is swallowed")
+         loops={"0": {"match": "True", "modifies": ["self._protocol._queue"],
+                      "step_ensures": {"yields_exactly_the_frame_it_read": "len(events('yield')) == pre(len(events('yield'))) + 1 and len(events('frame_in')) == pre(len(events('frame_in'))) + 1 "
+                                                                           "and same_object(events('yield')[-1], events('frame_in')[-1])"}}},
+         notes="async generator: yields decoded frames until the queue is empty; only QueueEmpty is swallowed; every item it yields is "
+               "the frame the LAN._read call of the same iteration returned (so the decode relation of _read holds for it)")
 
 
 def as_bytes(x):
@@ -393,6 +410,8 @@ def is_data_packet_for(p, proto, frame_packet):
             and aes_cbc_dec(proto._local_key, p[6:-32])[2:2 + len(frame_packet)] == frame_packet)
 
 
+APPENDS_RESP = "len(responses) == pre(len(responses)) + 1 and same_object(responses[-1], resp)"
+
 contract(LANC + ".send",
          params={"self": "obj:" + LANC, "data": "bytes", "retries": "int[1,8]"},
          requires=["lan_inv(self)", "len(data) <= 60000"],
@@ -422,17 +441,23 @@ contract(LANC + ".send",
                   # blocking read can only be answered by something that arrived after it; whatever else is available is returned with it
                   "c01.stale_frames_are_drained_before_the_request_goes_out": "events('io')[0] == 'drain' and 'tx' in events('io')",
                   "c01.everything_available_is_returned": "events('io')[-1] == 'drain'",
+                  # C01/C03 (up): the list handed to the device layer consists of frames LAN._read produced (each the verified decoding of a
+                  # packet the protocol layer handed up): the two drain loops append exactly what _read_available yields, a retry adds nothing,
+                  # and the awaited response is the result of the blocking LAN._read
+                  "c01.awaited_response_is_what_was_read": "len(events('frame_in')) == 1 and result[final('k0')] == events('frame_in')[0]",
                   "data_goes_out_on_the_current_connection": "all(same_object(t, self._protocol._transport) for t in events('tx_on'))"},
-         local_roles={"packet": "assigned_from:_Packet.encode", "responses": "returned"},
-         loops={"0": {"match": "_read_available", "havoc": {"responses": "list:bytes"}},
-                "1": {"match": "retries > 0", "ghost_init": {"n": "0"}, "havoc": {"n": "int[0,8]", "responses": "list:bytes"},
+         local_roles={"packet": "assigned_from:_Packet.encode", "responses": "returned", "resp": "loop0.target"},
+         loops={"0": {"match": "_read_available", "havoc": {"responses": "list:bytes"},
+                      "step_ensures": {"keeps_exactly_the_frame_that_was_read": APPENDS_RESP}},
+                "1": {"match": "retries > 0", "ghost_init": {"n": "0", "k0": "len(responses)"}, "havoc": {"n": "int[0,8]", "k0": "int[0,1099511627776]", "responses": "list:bytes"},
                       "modifies": ["self._protocol._packet_id", "self._protocol._queue"],
-                      "invariant": ["n == old_retries - retries", "1 <= retries", "lan_inv(self)", "self._protocol is not None",
+                      "invariant": ["n == old_retries - retries", "1 <= retries", "lan_inv(self)", "self._protocol is not None", "len(responses) == k0",
                                     "implies(isinstance(self._protocol, _LanProtocolV3), self._protocol._local_key is not None)"],
                       "ghost_step": {"n": "pre(n) + 1"},
                       "step_hints": {"one_transmission_per_iteration": "len(events('tx')) == pre(len(events('tx'))) + 1"},
                       "variant": "retries"},
-                "2": {"match": "_read_available", "havoc": {"responses": "list:bytes"}, "invariant": ["len(responses) >= 1"]}})
+                "2": {"match": "_read_available", "havoc": {"responses": "list:bytes"}, "invariant": ["len(responses) >= 1", "len(responses) > k0", "responses[k0] == events('frame_in')[0]"],
+                      "step_ensures": {"keeps_exactly_the_frame_that_was_read": APPENDS_RESP}}})
 
 
 # ---- small LAN helpers by contract (keeps LAN.send's paths few) -------------------------------------------------------------
@@ -485,9 +510,10 @@ contract("msmart.base_device.Device._send_command#transport",
                    "0 <= command._protocol_version <= 255"],
          cancellation=True,
          modifies=["self._lan.*", "self._lan._protocol.*"],
-         raises={"asyncio.CancelledError": {}},
+         raises={"asyncio.CancelledError": {"post": {"serialised_exactly_once": "len(events('serialised')) == 1"}}},
          post_let={"LS": "events('lan_send')", "LR": "events('lan_recv')"},
          ensures={"still_recoverable": "lan_inv(self._lan)",
+                  "serialised_exactly_once": "len(events('serialised')) == 1",
                   "c01.frame_handed_to_the_transport_unchanged": "len(result) == 0 or len(LS) == 1 and LS[0] == frame_spec(command._device_type, command._protocol_version, command._frame_type, bytes())",
                   "c01.responses_returned_unchanged": "len(result) == 0 or (len(LR) == 1 and same_object(result, LR[0]))"},
          notes="C08/C09: ProtocolError and TimeoutError of the transport are turned into an empty response list")
@@ -539,13 +565,15 @@ from pyvc.dsl import has_own, pending_getters, hexbytes
 contract(LAN + "_LanProtocol.__init__",
          params={"self": "new:" + LAN + "_LanProtocol"},
          modifies=["self.*"], raises={},
-         ensures={"own_queue": "has_own(self, '_queue') and self._queue.empty()",
+         ensures={"declared_attribute_types_hold": "conforms(self)",
+                  "own_queue": "has_own(self, '_queue') and self._queue.empty()",
                   "not_connected_yet": "has_own(self, '_transport') and self._transport is None"})
 
 contract(V3 + ".__init__",
          params={"self": "new:" + V3},
          modifies=["self.*"], raises={},
-         ensures={"own_receive_state": "has_own(self, '_buffer') and has_own(self, '_queue') and len(self._buffer) == 0 and self._queue.empty()",
+         ensures={"declared_attribute_types_hold": "conforms(self)",
+                  "own_receive_state": "has_own(self, '_buffer') and has_own(self, '_queue') and len(self._buffer) == 0 and self._queue.empty()",
                   "own_session_state": "has_own(self, '_packet_id') and has_own(self, '_local_key') and has_own(self, '_local_key_expiration')",
                   "fresh_session": "self._packet_id == 0 and self._local_key is None and self._local_key_expiration is None",
                   "not_connected_yet": "has_own(self, '_transport') and self._transport is None"},
